@@ -73,6 +73,20 @@ def run(ctx) -> None:
                                  trivial=fs in ("1", ""),
                                  sample={"x": x, "step": D, "suspect_threshold": st, "fail_threshold": ft,
                                          "tolerance": tol, "observed": o.brief()})
+    if ctx.shard == 0:
+        n = 70001
+        x = [float(k % 9) for k in range(n)]
+        for b in (4096, 16384, 32768, 65536):
+            for k in range(b - 3, b + 4):
+                x[k] = 500.0 + 0.25 * (k % 2)  # a plateau straddling the power of two
+            x[b + 8] = None
+        t = gen.regular(n, 60)
+        kw = {"inp": gen.arr(x), "tinp": gen.times(t), "suspect_threshold": 120, "fail_threshold": 300, "tolerance": 0.5}
+        with mon.active():
+            client.expect(ctx, "C11", "qartod.flat_line_test", kw, lambda: models.flat_line(x, 60, 120, 300, 0.5),
+                          logical={"x": "70001 points, plateaus around 4096/16384/32768/65536", "step": 60}, hist="flat_line")
+        ctx.count("flat_line.calls")
+        ctx.case("huge|70001")
     ctx.counters["bounds.views_formed"] += mon.formed
     ctx.counters["bounds.views_formed_past_buffer_end(legal, never read)"] += mon.formed_oob
     ctx.counters["bounds.views_read"] += mon.materialised
